@@ -166,6 +166,15 @@ def check_scalar(op, it, settings):
         return f is not None and f == ns / unit
     if m in ("IPAddr", "MACAddr"):
         return it["m"] == 6 and it.get("u") == "260" and it["items"][0]["m"] == 2 and list(bytes.fromhex(it["items"][0].get("hex", ""))) == list(v.get("ip") or [])
+    if m == "IPPrefix":
+        # tag 261 around a map of one pair: the address bytes -> the prefix length as an UNSIGNED integer (0..128)
+        if it["m"] != 6 or it.get("u") != "261":
+            return False
+        c = it["items"][0]
+        kids = c.get("items") or []
+        ones = sum(bin(b).count("1") for b in (v.get("mask") or []))
+        return (c["m"] == 5 and len(kids) == 2 and kids[0]["m"] == 2 and list(bytes.fromhex(kids[0].get("hex", ""))) == list(v.get("ip") or [])
+                and kids[1]["m"] == 0 and kids[1].get("u") == str(ones))
     return None
 
 
